@@ -105,6 +105,9 @@ def main():
             meta = os.path.join(sd, d, 'meta.json')
             if os.path.exists(meta):
                 m = json.load(open(meta))
+                if m.get('obsolete_since'):
+                    print(f'seeded  {d:40s} obsolete since {m["obsolete_since"]} (skipped)')
+                    continue
                 items.append(('seeded', d, m.get('check_with', [m['property']]),
                               os.path.join(sd, d, 'patch.diff'), None, None, m.get('needs', '')))
     for kind, name, props, file, old, new, note in items:
